@@ -174,6 +174,48 @@ def h_switches(ctx):
     ctx.require("nothing-else-changes", others_b == others_g, section=spelled, switch=body)
 
 
+# a threshold option on the command line replaces that threshold only: the rest of the linter's section stays in effect
+OPTION_SECTIONS = (
+    ("nesting", ("--max-depth", "1"), ("nesting",), "nest.py"),
+    ("srp", ("--max-methods", "1"), ("srp",), "srp.py"),
+    ("dry", ("--min-lines", "2"), ("dry",), "dup1.py"),
+    ("pipeline", ("--min-continues", "1"), ("collection-pipeline", "collection_pipeline", "pipeline"), "pipeline.py"),
+)
+
+
+def h_option_keeps_section(ctx):
+    import src.linter_config.ignore as ign
+    from click.testing import CliRunner
+    from src.cli_main import cli
+    cmd, option, sections, fname = ctx.pick("command", OPTION_SECTIONS)
+    section = ctx.pick("section_written_as", sections)
+    other = ctx.pick("other_setting", ("enabled-false", "ignore-the-file"))
+    with_option = ctx.flag("threshold_option_given")
+    d = Path(tempfile.mkdtemp(prefix="c05opt-"))
+    try:
+        (d / ".git").mkdir()
+        (d / "src").mkdir()
+        names = ("dup1.py", "dup2.py") if cmd == "dry" else (fname,)
+        for n in names:
+            (d / "src" / n).write_text(triggers.DUP_FILES[n] if n in triggers.DUP_FILES else triggers.T[n][3])
+        body = "  enabled: false\n" if other == "enabled-false" else "  enabled: true\n  ignore:\n" + "".join("    - src/%s\n" % n for n in names)
+        (d / ".thailint.yaml").write_text("%s:\n%s" % (section, body))
+        ign.clear_ignore_parser_cache()
+        r = CliRunner().invoke(cli, [cmd, "--format", "json"] + (list(option) if with_option else []) + [str(d / "src")])
+        try:
+            n_found = len(json.loads(r.output[r.output.index("{"):])["violations"])
+        except (ValueError, KeyError):
+            n_found = None
+    finally:
+        shutil.rmtree(d, True)
+        ign.clear_ignore_parser_cache()
+    ctx.note("command", cmd)
+    ctx.cover("silent" if n_found == 0 else "reporting")
+    ctx.require("run-completes", r.exit_code in (0, 1) and n_found is not None, code=r.exit_code, out=r.output[-200:])
+    ctx.require("section-stays-in-effect-next-to-a-threshold-option", n_found == 0, command=cmd, section=section, other=other,
+                option=option if with_option else None, found=n_found)
+
+
 def h_enabled(ctx):
     from src.core.config_parser import _normalize_config_keys
     section, prefix, groups = ctx.pick("linter", LINTERS)
@@ -506,6 +548,10 @@ def obligations(tier):
            functions=["LazyIgnoresRule.check/_load_config/check_content", "PerformanceConfig.from_dict/for_rule", "StringConcatLoopRule/RegexInLoopRule._load_config"],
            bounds="forked: %d documented switches (lazy-ignores check_*, performance per-rule enabled) x {hyphen, underscore} section spelling" % len(SWITCHES),
            timeout=300, workers=8, must_cover=("silenced",)),
+        Ob(name="K2d-threshold-option-keeps-the-section", engine="pathex", harness=h_option_keeps_section,
+           functions=["_apply_*_config_override / ensure_config_section / set_config_value", "each linter's section lookup", "Orchestrator._linter_ignores_file"],
+           bounds="forked: 4 commands with a threshold option x every accepted spelling of their section x {enabled: false, ignore list} x option given or not",
+           timeout=300, workers=8, must_cover=("silent",)),
         Ob(name="K2-threshold-monotone-and-validated", engine="pathex", harness=h_monotone,
            functions=["the threshold linters' Config.from_dict/__post_init__", "NestingDepthRule/SRPRule/MagicNumberRule/DRYRule/MethodPropertyRule/CQSRule/CollectionPipelineRule .check"],
            bounds="two thresholds a <= b in [-1, 9] (thorough: [-1, 16]) (symbolic where the code only compares, enumerated by forking where it needs a machine integer); 10 (section, key) pairs x 2 spellings",
